@@ -12,7 +12,7 @@ from .core import MachineryFailure
 
 
 def validate(ctx, module, sessions, *, constants="", invariants=(), properties=(), workers=16, count=True, timeout=1800,
-             spec="TraceSpec", heap="2g"):
+             spec="TraceSpec", heap="2g", allow_stuck=False):
     """sessions: list of dicts with at least sid and events. Returns {sid: [ {l, op, failed[]} ]}."""
     if not sessions:
         return {}
@@ -41,6 +41,12 @@ def validate(ctx, module, sessions, *, constants="", invariants=(), properties=(
         if isinstance(doc, dict) and "verdict" in doc:
             verdicts[doc["sid"]] = doc["verdict"]
     missing = [s["sid"] for s in sessions if s["sid"] not in verdicts]
+    if missing and allow_stuck:
+        # the caller judges such sessions on their API-level observations alone: the INTERNAL event structure recorded from the
+        # implementation is not a behaviour of the specification's machine (drift, e.g. another task structure)
+        for sid in missing:
+            verdicts[sid] = None
+        missing = []
     if missing:
         raise MachineryFailure(f"{module}: sessions {missing[:5]} were not consumed to the end (not a behaviour of the "
                                f"specification's machine; harness/spec mismatch)\n{res.raw_tail[-2500:]}")
